@@ -5,15 +5,17 @@ export GOPROXY=off
 .PHONY: all coq oracle harness harness-race clean
 all: coq oracle harness
 coq/Makefile: coq/_CoqProject
-	cd coq && coq_makefile -f _CoqProject -o Makefile >/dev/null
+	cd coq && flock .lock coq_makefile -f _CoqProject -o Makefile >/dev/null
 coq: coq/Makefile
-	cd coq && timeout 3000 $(MAKE) -j16 2>&1 | tee ../out/coq-build.log | grep -v '^COQ\|^CoqMakefile' ; exit $${PIPESTATUS[0]}
+	cd coq && flock .lock timeout 3000 $(MAKE) -j16 2>&1 | tee ../out/coq-build.log | grep -v '^COQ\|^CoqMakefile' ; exit $${PIPESTATUS[0]}
+# (builds are serialised with a lock file and the binaries are moved into place: checks of several
+#  properties may run at the same time)
 oracle: coq
-	$(MAKE) -C oracle
+	flock oracle/.lock $(MAKE) -C oracle
 harness:
-	cd harness && cp /repo/go.sum . && go build -tags verif -o bin/harness .
+	cd harness && flock .lock sh -c 'cp /repo/go.sum . && go build -tags verif -o bin/harness.new . && mv -f bin/harness.new bin/harness'
 harness-race:
-	cd harness && cp /repo/go.sum . && go build -race -tags verif -o bin/harness-race .
+	cd harness && flock .lock sh -c 'cp /repo/go.sum . && go build -race -tags verif -o bin/harness-race.new . && mv -f bin/harness-race.new bin/harness-race'
 clean:
 	-cd coq && [ -f Makefile ] && $(MAKE) clean; rm -f coq/Makefile coq/Makefile.conf
 	$(MAKE) -C oracle clean
